@@ -1,6 +1,7 @@
 import M3d.Basic
 import M3d.Model.Surface
 import M3d.Model.Triangulate
+import M3d.Model.TriFace
 /-!
 Line-protocol handler for C14.  Core-only.
 
@@ -293,11 +294,24 @@ def handleFaceS : List String → Option String
         else if nx != 0 then p3.map fun p => ⟨p.2.1, p.2.2⟩
         else p3.map fun p => ⟨p.2.2, p.1⟩
       if !planar || !simpleLoop pts then some "invalid-input" else
+      -- the chart of the model of `TriangulateFace` (`faceChart`: basis2 from the first vertex off the
+      -- line of the first edge).  By `M3d.C14.face_chart_faithful` it exists for every valid face and is
+      -- an orientation-faithful image of it, so it is simple and the certificate has the same verdict
+      -- in it as in the drop-a-coordinate chart; both are evaluated (a disagreement would be a defect of
+      -- the machinery, never of the Go code, and is printed as such).
+      let p3' : List (P3 Q) := p3.map fun p => ⟨p.1, p.2.1, p.2.2⟩
+      match faceChart p3' with
+      | none => some "machinery:model-chart-missing"
+      | some ch =>
+      if !simpleLoop ch then some "machinery:model-chart-not-simple" else
       match tf with
       | .panic => some "ok n=?"
       | .foreign => some "bad:foreign-vertex"
       | .tris ts =>
-        match certLine (coordFn pts) n (isClockwise pts) [n] ts with
+        let v1 := certLine (coordFn pts) n (isClockwise pts) [n] ts
+        let v2 := certLine (coordFn ch) n (isClockwise ch) [n] ts
+        if v1.isSome != v2.isSome then some "machinery:charts-disagree" else
+        match v1 with
         | some b => some b
         | none => if ts.length + 2 ≤ n then some s!"ok n={ts.length}" else some "bad:too-many-triangles"
   | _ => none
